@@ -137,7 +137,12 @@ def _exec_history(case):
     if isinstance(fy, Raised) or not bool(torch.isfinite(fy).all()):
         out.discard = True
         return out
-    r = cut(quantize, model, weights=wq, activations=aq)
+    if case["seed"] % 4 == 0:
+        # qtypes given by name, as the API documents
+        out.klass.append("qtypes-by-name")
+        r = cut(quantize, model, weights=case["wq"], activations=None if aq is None else aq.name)
+    else:
+        r = cut(quantize, model, weights=wq, activations=aq)
     if isinstance(r, Raised):
         return out.fail(f"quantize-raises:{r.type}", r.text)
     frozen = False
